@@ -169,10 +169,82 @@ def correspondence(ctx: Ctx) -> None:
                 new_found.append(f)
     new_found += [f for f in found if f.get("changed") is None]
     ctx.extra["metamorphic_differences_on_impl"] = len(found)
+    new_found += discovery_order_metamorphic(ctx)
     ctx._found = new_found  # type: ignore[attr-defined]
     if new_found:
         ctx.mismatch("metamorphic", {"variant": new_found[0]["variant"], "base": new_found[0]["base"]},
                      new_found[0]["base_out"], new_found[0]["variant_out"])
+
+
+DIR_NAMES = ["app", "lib", "core", "tests", "test", "integration-tests", "unit-test", "pkg", "tools", "docs", "src", "x-tests", "plugins"]
+
+
+def make_tree(rng, base, depth: int, counter: List[int]) -> None:
+    """random source tree: setup.cfg projects at any level, several test-like directories next to each other"""
+    import os
+    names = rng.sample(DIR_NAMES, rng.choice([2, 3, 4, 5]))
+    for nme in names:
+        d = os.path.join(base, nme)
+        os.makedirs(d, exist_ok=True)
+        if rng.random() < 0.55:
+            counter[0] += 1
+            with open(os.path.join(d, "setup.cfg"), "w") as fh:
+                fh.write("[metadata]\nname = proj{}\nversion = {}.0\n".format(counter[0] % 7, 1 + counter[0] % 3))
+        if depth > 0 and rng.random() < 0.6:
+            make_tree(rng, d, depth - 1, counter)
+
+
+def discovery_order_metamorphic(ctx: Ctx) -> List[Dict[str, Any]]:
+    """The set a SourceRepository offers must not depend on the order in which directories are listed."""
+    import os
+    import random as _random
+    import req_compile.repos.source as S
+    logging_off()
+    out: List[Dict[str, Any]] = []
+    tmp = ctx.tmpdir()
+    orig_walk = os.walk
+    for t in range(ctx.n(25, 400)):
+        root = str(tmp / f"tree{t}")
+        os.makedirs(root)
+        make_tree(ctx.rng, root, 2, [t])
+        results = []
+        for order in ("sorted", "reversed", "shuffle-a", "shuffle-b"):
+            prng = _random.Random(hash((ctx.seed, t, order)) & 0xFFFFFFFF)
+
+            def walk(top, order=order, prng=prng):
+                for r, dirs, files in orig_walk(top):
+                    if order == "sorted":
+                        dirs.sort(); files.sort()
+                    elif order == "reversed":
+                        dirs.sort(reverse=True); files.sort(reverse=True)
+                    else:
+                        prng.shuffle(dirs); prng.shuffle(files)
+                    yield r, dirs, files
+
+            S.os.walk = walk
+            try:
+                repo = S.SourceRepository(root)
+                got = sorted((c.name, str(c.version), os.path.relpath(c.filename, root)) for c in repo.get_candidates(None))
+            except BaseException as ex:  # noqa: BLE001
+                got = ["EXC", type(ex).__name__]
+            finally:
+                S.os.walk = orig_walk
+            results.append((order, got))
+            ctx.count("variant:discovery-order")
+            ctx.case(key=("tree", ctx.seed, t, order), nontrivial=len(got) >= 2)
+        base = results[0][1]
+        for order, got in results[1:]:
+            if got != base:
+                ctx.count("differs:discovery-order")
+                listing = sorted(os.path.relpath(os.path.join(r, f), root) for r, _, fs in orig_walk(root) for f in fs)
+                out.append({"variant": "discovery-order:" + order, "base": {"tree_files": listing}, "base_out": base, "variant_out": got})
+                break
+    return out
+
+
+def logging_off() -> None:
+    import logging
+    logging.disable(logging.CRITICAL)
 
 
 def projection(o: Dict[str, Any]) -> Any:
